@@ -161,7 +161,10 @@ pub fn run(case: &Value, _params: &Params, out: &mut Vec<Value>) {
     let yf: Vec<f64> = yi.iter().map(|&v| v as f64 / 4.0).collect();
     let axis = rng.below(nd.max(1) as u64) as usize;
     let wl = if nd == 0 { 0 } else { shape[axis] };
-    let w1: Vec<f64> = (0..wl).map(|k| 1.0 + (k % 3) as f64).collect();
+    // 1-D weights 0, 1, 2 (a zero weight may come first) with a positive total
+    let wc = rng.below(3) as usize;
+    let mut w1: Vec<f64> = (0..wl).map(|k| ((k + wc) % 3) as f64).collect();
+    if wl > 0 && w1.iter().all(|&v| v == 0.0) { w1[wl - 1] = 2.0; }
     let other = random_lay(&mut rng, &shape, true);
     let reps = vec![
         Rep { name: "C/owned/dyn".into(), lay: Lay::plain(&shape, false), kind: "owned", stat: false },
